@@ -265,6 +265,23 @@ Qed.
 Lemma obj_item_nostream rel id v : (forall d p, v <> OStream d p) -> obj_item rel id v = IObj id v.
 Proof. intros H. destruct v; try reflexivity. exfalso. eapply H. reflexivity. Qed.
 
+(* any written object, whatever its dictionary says: what IndirectP yields, classified by [obj_item] *)
+Theorem item_at_fileobj K rel s c x lo rest :
+  at_cur s c (render_obj x lo ++ rest) -> wf_obj_k K x lo ->
+  exists nx, item_at rel s c = (obj_item rel (fst x) (snd x), nx).
+Proof.
+  intros H W. destruct x as [[n g] v]. cbn [fst snd].
+  assert (X : xsectp s c = PErr EGuard c).
+  { pose proof H as H'. unfold render_obj in H'. cbn [fst snd] in H'. rewrite <- app_assoc in H'.
+    apply (xsectp_at_digits s c _ _ _ H'). apply W. }
+  unfold item_at. rewrite X.
+  assert (D : (exists d p, v = OStream d p) \/ (forall d p, v <> OStream d p)).
+  { destruct v; try (right; intros; discriminate). left. eauto. }
+  destruct D as [(d & p & ->)|D].
+  - destruct (indirect_stream _ rel s c n g d p lo rest H W) as (os & oe & st & e & E). rewrite E. cbn [i_num i_gen i_obj]. eauto.
+  - destruct (indirect_plain _ rel s c n g v lo rest H W D) as (os & oe & e & E). rewrite E. cbn [i_num i_gen i_obj]. eauto.
+Qed.
+
 Theorem item_at_object rel s c x lo rest :
   at_cur s c (render_obj x lo ++ rest) -> wf_obj x lo ->
   exists nx, item_at rel s c = (IObj (fst x) (snd x), nx).
@@ -284,6 +301,12 @@ Proof.
 Qed.
 
 (* the item is one that IndirectP accepts without looking anything up (Proofs/LoaderObjs.v [simple]) *)
+Lemma wf_obj_k_simple K x lo : wf_obj_k K x lo -> LoaderObjs.simple (IObj (fst x) (snd x)).
+Proof.
+  intros W. destruct x as [id v]. cbn [fst snd LoaderObjs.simple]. destruct v; try exact I.
+  destruct W as (_ & _ & _ & _ & _ & _ & _ & _ & _ & _ & _ & _ & _ & Dl & _). cbn [snd] in Dl. exact Dl.
+Qed.
+
 Lemma wf_obj_simple x lo : wf_obj x lo -> LoaderObjs.simple (IObj (fst x) (snd x)).
 Proof.
   intros W. destruct x as [id v]. cbn [fst snd LoaderObjs.simple]. destruct v; try exact I.
